@@ -182,6 +182,19 @@ def batch_body(ctx, case):
             p4 = np.stack([np.stack([c.centre_of_gravity(s4[a, b].copy()) for b in range(n)], axis=1) for a in range(2)], axis=1)
             ctx.require(np.asarray(g4).shape == p4.shape, "centre_of_gravity of a rank-4 stack: shape %s, expected %s" % (np.asarray(g4).shape, p4.shape))
             ctx.close(g4, p4, tol, "centre_of_gravity(rank-4 stack) == per frame", scale=max(ny, nx), name="cog batch rank 4")
+            if t != 0:
+                # with a threshold: two leading axes must give what the same frames give as one stack axis
+                # (judged against the 3-D call, so the open finding about 2-D vs N-D thresholding is not involved)
+                kw4 = {"threshold": t}
+                if case["mt"]:
+                    kw4["min_threshold"] = case["mt"]
+                g4t = np.asarray(c.centre_of_gravity(s4.copy(), **kw4))
+                f3t = np.asarray(c.centre_of_gravity(s4.reshape((2 * n, ny, nx)).copy(), **kw4)).reshape((2, 2, n))
+                ctx.require(g4t.shape == f3t.shape, "centre_of_gravity(rank-4 stack, threshold): shape %s, expected %s" % (g4t.shape, f3t.shape))
+                # a frame entirely below min_threshold has no centroid (0/0) in either form
+                ctx.require(bool(np.array_equal(np.isnan(g4t), np.isnan(f3t))), "centre_of_gravity(rank-4 stack, threshold): frames without a centroid differ from the rank-3 call")
+                ok = ~np.isnan(f3t)
+                ctx.close(g4t[ok], f3t[ok], tol, "centre_of_gravity(rank-4 stack, threshold) == the same frames as a rank-3 stack", scale=max(ny, nx), name="cog batch rank 4 threshold")
         else:
             q4 = s4[..., :2, :2]
             g4 = c.quadCell(q4.copy())
@@ -205,6 +218,13 @@ def batch_body(ctx, case):
         got = c.brightest_pixel(relayout(stack.copy(), case.get("layout", "C")), f)
         per = np.stack([c.brightest_pixel(stack[i].copy(), f) for i in range(n)], axis=1)
         ctx.close(got, per, tol, "brightest_pixel(stack) == per frame", scale=max(ny, nx), name="bp batch")
+        if n >= 2:
+            # "2d or greater rank array of imgs": (frames, sub-apertures, y, x)
+            s4 = np.stack([stack, stack[::-1]])
+            g4 = np.asarray(c.brightest_pixel(s4.copy(), f))
+            p4 = np.stack([np.stack([c.brightest_pixel(s4[a, b].copy(), f) for b in range(n)], axis=1) for a in range(2)], axis=1)
+            ctx.require(g4.shape == p4.shape, "brightest_pixel of a rank-4 stack: shape %s, expected %s" % (g4.shape, p4.shape))
+            ctx.close(g4, p4, tol, "brightest_pixel(rank-4 stack) == per frame", scale=max(ny, nx), name="bp batch rank 4")
     elif which == "quad":
         q = stack[:, :2, :2]
         got = c.quadCell(q.copy())
@@ -297,10 +317,62 @@ def quad_body(ctx, case):
     ctx.require(c.quadCell(a.T.copy())[1] > 0 and c.quadCell(a.T.copy())[0] == 0, "quadCell: y signal sign / axis")
 
 
+# ------------------------------------------------------------------ the same counts in another integer type
+
+@st.composite
+def counts_cases(draw):
+    ny, nx = draw(st.integers(2, 14)), draw(st.integers(2, 14))
+    n = draw(st.integers(0, 3))
+    seed = draw(st.integers(0, 2**32 - 1))
+    return {"ny": ny, "nx": nx, "n": n, "seed": seed, "peak": draw(st.sampled_from([12, 80, 250])), "bg": draw(st.sampled_from([0, 1, 5])),
+            "dtype": draw(st.sampled_from(["uint8", "uint16", "uint32", "uint64", "int16", "int32", "int64"])),
+            "t": draw(st.sampled_from([0.0, 0.25, 0.5])), "f": draw(st.floats(0.05, 0.9)), "padding": draw(st.integers(1, 2))}
+
+
+def counts_body(ctx, case):
+    """Detector frames are unsigned integers.  The same counts handed over as uint8 / uint16 / ... / int64 must give what they
+    give as float64 (every value is exactly representable in all of them): a centroid cannot depend on the storage type."""
+    c = C()
+    rng = gen.np_rng(case["seed"])
+    ny, nx, n = case["ny"], case["nx"], case["n"]
+    shape = (ny, nx) if n == 0 else (n, ny, nx)
+    img = rng.integers(0, case["bg"] + 1, size=shape)
+    yy, xx = np.mgrid[0:ny, 0:nx]
+    for fr in (img.reshape((-1, ny, nx))):
+        cy, cx = rng.uniform(0, ny - 1), rng.uniform(0, nx - 1)
+        fr += np.round(case["peak"] * np.exp(-((yy - cy) ** 2 + (xx - cx) ** 2) / 3.0)).astype(fr.dtype)
+    img = np.minimum(img, 255)
+    ref = img.astype(np.float64)
+    typed = img.astype(case["dtype"])
+    ctx.require(bool(np.array_equal(typed.astype(np.float64), ref)), "harness: counts not representable")
+    ctx.case(case, nontrivial=True, classes=[case["dtype"], "single" if n == 0 else "stack"])
+    tol = 1e-12
+    t, f = case["t"], case["f"]
+    kf_cog = n > 0 and t != 0 and ctx.is_open(KF_COG)
+    if not kf_cog:
+        ctx.close(c.centre_of_gravity(typed.copy(), threshold=t), c.centre_of_gravity(ref.copy(), threshold=t), tol, "centre_of_gravity(%s counts) == centre_of_gravity(the same counts as float64)" % case["dtype"], scale=max(ny, nx), name="cog storage type")
+    if frac_ok(f, ny * nx):
+        want = c.brightest_pixel(ref.copy(), f)
+        if np.all(np.isfinite(want)):
+            ctx.close(c.brightest_pixel(typed.copy(), f), want, tol, "brightest_pixel(%s counts) == brightest_pixel(the same counts as float64)" % case["dtype"], scale=max(ny, nx), name="bp storage type")
+    q, qr = typed[..., :2, :2], ref[..., :2, :2]
+    for nm, sl in (("", (Ellipsis,)), (" mirrored left-right", (Ellipsis, slice(None), slice(None, None, -1))), (" mirrored up-down", (Ellipsis, slice(None, None, -1), slice(None)))):
+        ctx.close(np.asarray(c.quadCell(q[sl].copy()), dtype=np.float64), c.quadCell(qr[sl].copy()), tol, "quadCell(%s counts%s) == quadCell(the same counts as float64)" % (case["dtype"], nm), scale=4.0 * 255, name="quad storage type")
+    p = case["padding"]
+    r0_ = ref if n == 0 else ref[0]
+    gc = np.asarray(c.correlation_centroid(typed.copy(), typed.reshape((-1, ny, nx))[0].copy(), threshold=t, padding=p))
+    wc = np.asarray(c.correlation_centroid(ref.copy(), r0_.copy(), threshold=t, padding=p))
+    # a frame without contrast has no correlation peak (0/0) whatever its storage type
+    ctx.require(bool(np.array_equal(np.isnan(gc), np.isnan(wc))), "correlation_centroid(%s counts): frames without a centroid differ from the float64 call" % case["dtype"])
+    okc = ~np.isnan(wc)
+    ctx.close(gc[okc], wc[okc], 1e-9, "correlation_centroid(%s counts) == correlation_centroid(the same counts as float64)" % case["dtype"], scale=max(ny, nx) * p, name="corr storage type")
+
+
 LAWS = [
     given_law("single_pixel", pixel_cases(), pixel_body, {"quick": 600, "thorough": 10000}, shards={"quick": 3, "thorough": 16}),
     given_law("moment_scale_shift", image_cases(), image_body, {"quick": 800, "thorough": 12500}, shards={"quick": 3, "thorough": 16}),
     given_law("batch", batch_cases(), batch_body, {"quick": 600, "thorough": 10000}, shards={"quick": 3, "thorough": 16}),
     given_law("correlation", corr_cases(), corr_body, {"quick": 500, "thorough": 7500}, shards={"quick": 3, "thorough": 16}),
     given_law("quadcell", quad_cases(), quad_body, {"quick": 300, "thorough": 3750}, shards={"quick": 3, "thorough": 16}),
+    given_law("integer_counts", counts_cases(), counts_body, {"quick": 300, "thorough": 3750}, shards={"quick": 3, "thorough": 16}),
 ]
